@@ -627,6 +627,10 @@ def body_wrappers(case, ctx):
         "sl2c_to_so31": lie.sl2c_to_so31,
         "block_include": lambda X: lie.block_include(X, n + p),
     }[which]
+    wf = None
+    if which in ("gln_adjoint", "sln_adjoint"):
+        # (requested before the plain wrapper below, see "wrappers-with-different-options")
+        wf = getattr(LH, which)(dtype="float64")
     wrapped = {
         "sl2_irrep": lambda: LH.sl2_irrep(p),
         "sl2_to_so21": LH.sl2_to_so21,
@@ -654,6 +658,23 @@ def body_wrappers(case, ctx):
         else:
             w = as_num(wrapped(M.copy()))
             ctx.close("lie.hom wrapper(M) = direct call", w, d, rtol=0, atol=0, call=k)
+    if which in ("gln_adjoint", "sln_adjoint"):
+        # two wrappers of the same map requested with different keyword options are two
+        # different functions: one asked for with dtype=float64 says nothing about the next
+        # one, which is applied to complex matrices as it stands
+        ctx.label("wrappers-with-different-options")
+        lh = getattr(LH, which)
+        R0 = np.real(mats[0]) if np.iscomplexobj(mats[0]) else mats[0]
+        ctx.close("wrapper(dtype=float64) on a real matrix",
+                  np.asarray(wf(R0.copy()), dtype=float), as_num(direct(R0.copy())).real,
+                  rtol=1e-12, atol=1e-12)
+        Z = mats[1].astype(complex) * (1.0 + 0.5j) if which == "gln_adjoint" else \
+            mats[1].astype(complex)
+        if which == "sln_adjoint":
+            Z = Z @ np.diag([1j, -1j] + [1.0] * (Z.shape[0] - 2)) if Z.shape[0] >= 2 else Z
+        wz = lh()
+        ctx.close("wrapper() requested after wrapper(dtype=float64), on a complex matrix",
+                  as_num(wz(Z.copy())), as_num(direct(Z.copy())), rtol=1e-12, atol=1e-12)
     if which == "so21_to_sl2":
         return          # a homomorphism only up to sign: not usable generator by generator
     # Representation.compose(hom): images of words are hom(rho(w))
